@@ -659,7 +659,7 @@ protected:
 				}
 			}
 			constexpr unsigned sizeofInteger = 8 * sizeof(v);
-			if (v == -v) {
+			if (v == std::numeric_limits<Arith>::min()) {   // -v is undefined for the most negative value
 				// v is at maxneg 0x10...000
 				if constexpr (sizeofInteger <= (nbits - rbits)) {
 					f.setbit(sizeofInteger + rbits - 1);
